@@ -20,6 +20,7 @@ META = {
     "encoded": ["csr.reg.Builder.__init__", "csr.reg.Builder.add", "csr.reg.Builder.Cluster", "csr.reg.Builder.Index",
                 "csr.reg.Builder.freeze", "csr.reg.Builder.as_memory_map", "memory.MemoryMap.add_resource",
                 "memory.MemoryMap._compute_addr_range", "memory._RangeMap.insert/overlaps"],
+    "also": 'address widths 12/16; a second builder used while scopes of the first are open; as_memory_map() repeated after a rejection',
     "bounds": "geometry (addr width 3-6, data width 8/16/32, granularity dividing it); sequences of 2-3 (thorough "
               "2-4) additions of real registers with widths in {0,1,dw,dw+1,2dw+1,4dw}, each at an implicit or a "
               "SYMBOLIC explicit offset in [0, 2^aw * dw/g + 2], inside Cluster/Index scopes from a small grammar, "
